@@ -1346,6 +1346,7 @@ def eliminate_none_sentinel(fn: ast.FunctionDef) -> ast.FunctionDef:
         if isinstance(t, ast.Call) and isinstance(t.func, ast.Name) and \
                 t.func.id == 'isinstance' and len(t.args) == 2 and is_x(t.args[0], x) and \
                 'NoneType' not in ast.unparse(t.args[1]) and \
+                'type(None)' not in ast.unparse(t.args[1]) and \
                 ast.unparse(t.args[1]) != 'object':
             return False
         return None
